@@ -35,3 +35,7 @@ pub(crate) const LOW_INDEX: usize = TIME_TRACE_SIZE * 9 / 10;
 pub(crate) const LOG_TARGET_RELAY: &str = "ckb_relay";
 
 pub(crate) const LOG_TARGET_FILTER: &str = "ckb_filter";
+
+/// verification hook (off unless built with `--cfg ckb_verif`): name the in-flight table for external harnesses
+#[cfg(ckb_verif)]
+pub use crate::types::{InflightBlocks, InflightState};
